@@ -33,6 +33,8 @@ type c13case struct {
 	three bool
 	// tbl: the squares table to use for a three-squares case (nil: the common 4096-entry table)
 	tbl *rangeproof.SquaresTable
+	// mBits: exact bit length of the attribute (0: 200..252 random bits)
+	mBits int
 }
 
 // c13Extreme: true statements proved while single reads of crypto/rand.Reader return all ones / all zeros.
@@ -95,11 +97,11 @@ func runC13(r *mon.Run) {
 	for d := int64(0); d <= 300; d++ {
 		for _, s := range []int{1, -1} {
 			f := uint(1 + (d+int64(s)+1)%8)
-			cases = append(cases, c13case{s, f, bi(d), false, nil})
+			cases = append(cases, c13case{s, f, bi(d), false, nil, 0})
 			if d <= 40 {
 				for ff := uint(1); ff <= 8; ff++ {
 					if ff != f {
-						cases = append(cases, c13case{s, ff, bi(d), false, nil})
+						cases = append(cases, c13case{s, ff, bi(d), false, nil, 0})
 					}
 				}
 			}
@@ -113,14 +115,14 @@ func runC13(r *mon.Run) {
 	for k := uint(2); k <= 255; k += uint(step) {
 		for _, dlt := range []int64{-1, 0, 1} {
 			v := add(pow2(k), bi(dlt))
-			cases = append(cases, c13case{1 - 2*int(k%2), uint(1 + k%8), v, false, nil})
+			cases = append(cases, c13case{1 - 2*int(k%2), uint(1 + k%8), v, false, nil, 0})
 		}
 	}
-	cases = append(cases, c13case{1, 1, sub(pow2(256), bigOne), false, nil}, c13case{-1, 8, sub(pow2(256), bigOne), false, nil}, c13case{1, 3, sub(pow2(256), bi(8)), false, nil})
+	cases = append(cases, c13case{1, 1, sub(pow2(256), bigOne), false, nil, 0}, c13case{-1, 8, sub(pow2(256), bigOne), false, nil, 0}, c13case{1, 3, sub(pow2(256), bi(8)), false, nil, 0})
 	for a := uint(0); a <= 20; a += 2 {
 		for b := int64(0); b < 6; b++ {
 			v := mul(pow2(2*a), bi(8*b+7)) // numbers that are NOT sums of three squares
-			cases = append(cases, c13case{1, 1, v, false, nil}, c13case{-1, 2, v, false, nil})
+			cases = append(cases, c13case{1, 1, v, false, nil, 0}, c13case{-1, 2, v, false, nil, 0})
 		}
 	}
 	for i := 0; i < r.Pick(150, 9000); i++ {
@@ -132,14 +134,25 @@ func runC13(r *mon.Run) {
 				v.Rsh(v, 2)
 			}
 		}
-		cases = append(cases, c13case{1 - 2*rng.IntN(2), uint(1 + rng.IntN(8)), v, false, nil})
+		cases = append(cases, c13case{1 - 2*rng.IntN(2), uint(1 + rng.IntN(8)), v, false, nil, 0})
 	}
 	// three squares: every table entry, both signs
 	for d := int64(0); d <= 4096; d++ {
 		if !r.Thorough() && d > 64 && d < 4000 && d%3 != 0 {
 			continue
 		}
-		cases = append(cases, c13case{1, 1, bi(d), true, nil}, c13case{-1, 1, bi(d), true, nil})
+		cases = append(cases, c13case{1, 1, bi(d), true, nil, 0}, c13case{-1, 1, bi(d), true, nil, 0})
+	}
+	// attributes of full size (the rescaled bound then has up to 3 bits more than the attribute)
+	for _, mb := range []int{253, 254, 255, 256} {
+		for _, sg := range []int{1, -1} {
+			for _, dv := range []int64{0, 7, 1000} {
+				for _, f := range []uint{1, 2, 3, 8} {
+					cases = append(cases, c13case{sign: sg, f: f, diff: bi(dv), mBits: mb})
+				}
+				cases = append(cases, c13case{sign: sg, f: 1, diff: bi(dv), three: true, mBits: mb})
+			}
+		}
 	}
 	// tables of other sizes (the number of bits reserved for the roots is derived from the table size): every entry
 	limits := []int64{1, 2, 3, 4, 5, 15, 16, 17, 20, 63, 64, 65, 100, 255, 256, 300}
@@ -153,9 +166,9 @@ func runC13(r *mon.Run) {
 			step = 37
 		}
 		for d := int64(0); d <= lim; d += step {
-			cases = append(cases, c13case{1 - 2*int(d%2), 1, bi(d), true, tb})
+			cases = append(cases, c13case{1 - 2*int(d%2), 1, bi(d), true, tb, 0})
 		}
-		cases = append(cases, c13case{1, 1, bi(lim), true, tb}, c13case{-1, 1, bi(lim), true, tb})
+		cases = append(cases, c13case{1, 1, bi(lim), true, tb, 0}, c13case{-1, 1, bi(lim), true, tb, 0})
 	}
 	r.Set("three_square_table_sizes", len(limits)+1)
 	r.Set("three_square_entries_exhaustive", r.Thorough())
@@ -197,6 +210,10 @@ func mkStatement(jr *rand.Rand, c c13case, table *rangeproof.SquaresTable) (*big
 	m := randBig(jr, 200+jr.IntN(53))
 	if jr.IntN(6) == 0 {
 		m = bi(int64(jr.IntN(1000)))
+	}
+	if c.mBits > 0 {
+		m = randBig(jr, c.mBits)
+		m.SetBit(m, c.mBits-1, 1)
 	}
 	fm := mul(bi(int64(c.f)), m)
 	var bound *big.Int
